@@ -91,6 +91,7 @@ class FnInfo:
         self.loops = 0
         self.region = None
         self.has_body = False
+        self.is_const = False
 
 
 def analyse_generated(text, regions, unit_props):
@@ -109,8 +110,10 @@ def analyse_generated(text, regions, unit_props):
 
     def walk(its, owner, ext=False):
         for it in its:
-            if it.kind == 'fn':
+            if it.kind == 'fn' or (it.kind in ('const', 'static') and it.open is not None and 'exec' in [toks[x].text for x in range(it.head, it.kw)]):
+                # (an `exec const X: T ensures .. { body }` carries checked obligations like a function: rule R14)
                 fi = FnInfo()
+                fi.is_const = it.kind != 'fn'
                 fi.name = (owner + '::' if owner else '') + it.name
                 fi.start = rustlex.line_of(text, toks[it.head].start)
                 fi.end = rustlex.line_of(text, toks[it.last].end)
@@ -123,7 +126,7 @@ def analyse_generated(text, regions, unit_props):
                 attrs = ' '.join(it.attrs)
                 fi.external = ext or 'verifier::external' in attrs
                 for r in regions:
-                    if r.kind == 'fn' and r.gen_start <= fi.start and fi.end <= r.gen_end:
+                    if r.kind in ('fn', 'item') and r.gen_start <= fi.start and fi.end <= r.gen_end and (r.kind == 'fn' or fi.is_const):
                         fi.region = r
                 hdr_end = rustlex.line_of(text, toks[it.open].start) if it.open is not None else fi.end
                 if fi.region is not None and fi.region.info.get('props'):
@@ -419,7 +422,7 @@ def run_unit(name, tier='quick', keep=False, rebaseline=False):
             for (owner, fname, relpath, src_owner) in missing:
                 auto.append((owner, fname, relpath, src_owner))
                 if owner == '#const':
-                    extra_tail += f'\n//@item {relpath} const {fname} pub\n'
+                    extra_tail += f'\n//@item {relpath} const {fname} pub execconst selfvalue\n'
                 elif owner:
                     extra_tail += f'\nimpl {owner} {{\n//@fn {relpath} {src_owner}::{fname}\n//@end\n}}\n'
                 else:
@@ -616,7 +619,8 @@ def run_unit(name, tier='quick', keep=False, rebaseline=False):
         # ---- vacuity pass: assert(false) at the entry of every verified function must FAIL
         vtext = text
         ins = []
-        for f in verif_fns:
+        vac_fns = [f for f in verif_fns if not f.is_const]   # (a const initialiser has no entry condition to be vacuous under)
+        for f in vac_fns:
             ins.append((f.body_open_off + 1, ' assert(false); ' if f.mode == 'proof' else ' proof { assert(false); } '))
         for off, s in sorted(ins, key=lambda x: -x[0]):
             vtext = vtext[:off] + s + vtext[off:]
@@ -637,8 +641,8 @@ def run_unit(name, tier='quick', keep=False, rebaseline=False):
                         g = fn_at(vfns, s['line_start'])
                         if g is not None:
                             hit.add(g.name)
-        vac = [f.name for f in verif_fns if f.name not in hit]
-        res['vacuity'] = dict(functions_checked=len(verif_fns), reachable=len(hit), vacuous=vac)
+        vac = [f.name for f in vac_fns if f.name not in hit]
+        res['vacuity'] = dict(functions_checked=len(vac_fns), reachable=len(hit), vacuous=vac)
         if vac:
             res['reason'] = 'vacuous contract (function entry unreachable under its requires): ' + ', '.join(vac)
             return res
